@@ -15,7 +15,11 @@ STRUCT = ["flags0_plain", "flags0_plain_keepdigest", "flags4_plain", "auth_only_
           "flags2_malleate", "flags6_malleate", "flags3_malleate_keepdigest",
           # unauthenticated messages whose PDU carries an error-status: the lazily decoded PDU raises on first access, which must not
           # pre-empt the security-level check (noSuchName is what walks treat as "end of the subtree")
-          "flags0_plain_err2", "flags0_plain_err5", "report_unauth_err2", "auth_only_plain_err2", "flags0_plain_err2_novb"]
+          "flags0_plain_err2", "flags0_plain_err5", "report_unauth_err2", "auth_only_plain_err2", "flags0_plain_err2_novb",
+          # the (by nature unauthenticated) discovery reply of a fresh client carries an error-status: it is not the answer to the operation
+          "disco_report_err2", "disco_report_err5",
+          # a foreign user name (signed with the foreign user's key / unsigned) around a PDU with an error-status
+          "foreign_user_err2", "foreign_user_plain_err2"]
 
 
 def result_repr(op, r):
@@ -29,7 +33,7 @@ def result_repr(op, r):
         return repr((type(r).__name__, r.value))
     if op == "bulkget":
         return repr([(tuple(k.nodes), v.value) for k, v in r.listing.items()])
-    if op == "walk":
+    if op in ("walk", "walk_warn", "bulkwalk"):
         return repr([(tuple(vb.oid.nodes), vb.value.value) for vb in r])
     return repr(r)
 
@@ -48,6 +52,10 @@ async def do_op(c, op, inst):
         return await c.bulkget([], [OID(oidstr(PFX + (1,)))], 2)
     if op == "walk":
         return [vb async for vb in c.walk(OID(oidstr(PFX + (1,))))]
+    if op == "walk_warn":          # lenient mode forgives non-increasing OIDs - not forged traffic
+        return [vb async for vb in c.walk(OID(oidstr(PFX + (1,))), errors="warn")]
+    if op == "bulkwalk":
+        return [vb async for vb in c.bulkwalk([OID(oidstr(PFX + (1,)))], bulk_size=2)]
     raise ValueError(op)
 
 
@@ -106,6 +114,10 @@ def forge(kind, ag, u, xu, req, authentic: bytes, bit=None):
     if kind == "foreign_user":
         pl = scoped(pdu()) if not priv else enc_str(stream(xu.kpriv(ag.engine), b"saltsalt", scoped(pdu())))
         return signed(lvl, pl, kx, user=xu.name, salt=b"saltsalt" if priv else b""), S(mac="Kx", user="x", ekey="Kx" if priv else "-")
+    if kind == "foreign_user_err2":
+        return signed(lvl & 1, scoped(pdu(es=2, ei=1)), kx, user=xu.name), S(priv=False, form="plain", ekey="-", mac="Kx", user="x", es="noSuchName")
+    if kind == "foreign_user_plain_err2":
+        return msg(0, b"", scoped(pdu(es=2, ei=1)), user=xu.name), S(auth=False, priv=False, form="plain", ekey="-", mac="empty", user="x", es="noSuchName")
     if kind == "foreign_engine":
         k2 = localised_key(HNAME[xu.auth[0]], xu.auth[1], OTHER_ENGINE)
         return signed(lvl & 1, scoped(pdu()), k2, engine=OTHER_ENGINE), S(priv=False, form="plain", ekey="-", mac="Kx")
@@ -182,9 +194,29 @@ async def run_family(level, h, op, attacks, zero_value=False):
         c = Client("192.0.2.1", drv_usm.make_creds(sc), sender=sender)
         base = result_repr(op, await do_op(c, op, inst))
         authentic_len = len(ag.log[-1]["reply_raw"])
+        main_client = c
         for atk in attacks:
             kind, bit = atk if isinstance(atk, tuple) else (atk, None)
             state.update(attack=kind, bit=bit, sym=None, reqs=0)
+            c = main_client
+            if kind.startswith("disco_"):
+                # a fresh client: its first exchange is the discovery, whose reply the attacker replaces
+                es = 2 if kind.endswith("2") else 5
+                dstate = dict(done=False)
+
+                async def dsender(endpoint, packet, timeout=None, retries=None, _es=es, _d=dstate):
+                    raw = ag.handle(bytes(packet))
+                    q = ag.log[-1]
+                    if q.get("engine") == b"" and not _d["done"]:
+                        _d["done"] = True
+                        state["reqs"] = 1
+                        raw = build_v3(q["msgid"], 65507, 0, ag.engine, ag.boots, ag.engine_time(), b"", b"", b"",
+                                       build_scoped(ag.engine, b"", build_pdu(REPORT, q.get("reqid", 0), _es, 1, [(USM_STATS["unknownEngineIDs"], enc_uint(1, 0x41))])))
+                    return raw
+                c = Client("192.0.2.1", drv_usm.make_creds(sc), sender=dsender)
+                state["attack"] = None
+                state["sym"] = dict(auth=False, priv=False, user="u", form="plain", ekey="-", ptype="Report", vbs="usmStats", mac="empty", reqid=1,
+                                    es="noSuchName" if es == 2 else "other")
             try:
                 with cpu_budget(5):
                     r = await do_op(c, op, inst)
